@@ -161,6 +161,10 @@ Proof.
   - destruct (max_dec c <? len data); intros H; inversion H; subst; auto.
 Qed.
 
+(* the path decision of _fetch_with_probe: Some z = parallel ranges over z, None = single GET *)
+Definition parallel_len (c : cfg) (cl : option Z) (ar : bool) : option Z :=
+  match cl with Some z => if ar && (c_threshold c <=? z) then Some z else None | None => None end.
+
 (* ---- one attempt: which of the three shapes it took, and what it observed ---- *)
 Inductive shape (valid : N -> bool) (c : cfg) (presigned : bool) (url : N) (dec : Z -> list N -> Z -> option (list N))
           (sc : ascript) (r : rres) (o : aobs) : Prop :=
@@ -169,6 +173,7 @@ Inductive shape (valid : N -> bool) (c : cfg) (presigned : bool) (url : N) (dec 
     shape valid c presigned url dec sc r o
 | ShSingle : forall cl ar ce fr,               (* single GET *)
     fst (probe valid c url presigned (s_probe sc)) = PInfo cl ar ce ->
+    parallel_len c cl ar = None ->
     fr = follow valid (c_max_redir c) 0%N url (s_get sc) ->
     o_done o = [] -> o_chunkof o = [] ->
     (exists n, o_get o = Some (contacted_of fr, n) /\
@@ -186,6 +191,7 @@ Inductive shape (valid : N -> bool) (c : cfg) (presigned : bool) (url : N) (dec 
     shape valid c presigned url dec sc r o
 | ShParallel : forall z ar ce r' st,           (* parallel ranges over the probed length z *)
     fst (probe valid c url presigned (s_probe sc)) = PInfo (Some z) ar ce ->
+    parallel_len c (Some z) ar = Some z ->
     z <= c_max_fetch c -> c_threshold c <= z ->
     run_parallel valid c url (compute_ranges z (c_chunk c)) (s_tasks sc) (s_rounds sc) = (r', st) ->
     o_get o = None -> o_done o = p_done st -> o_chunkof o = p_chunkof st ->
@@ -207,6 +213,7 @@ Proof.
   { intros H; inversion H; subst; simpl. split; auto. apply ShStopped; simpl; eauto. }
   destruct (match cl with Some z => if ar && (c_threshold c <=? z) then Some z else None | None => None end) as [z|] eqn:EU.
   - destruct cl as [z0|]; [|discriminate].
+    assert (EU' : parallel_len c (Some z0) ar = Some z) by exact EU.
     destruct (ar && (c_threshold c <=? z0)) eqn:EA; [|discriminate]. inversion EU; subst z0.
     apply andb_true_iff in EA as [_ ET]. apply Z.leb_le in ET. apply Z.ltb_ge in EG.
     destruct (run_parallel valid c url (compute_ranges z (c_chunk c)) (s_tasks sc) (s_rounds sc)) as [r' st] eqn:ER.
@@ -214,29 +221,29 @@ Proof.
     destruct r' as [d|e].
     + destruct (post_decode c dec ce d) as [r2 dc] eqn:EPD. intros H; inversion H; subst; simpl. split; auto.
       eapply ShParallel with (z := z) (ar := ar) (ce := ce) (r' := ROk d) (st := st);
-        [exact HP | exact EG | exact ET | exact ER | reflexivity | reflexivity | reflexivity | simpl; exact EPD].
+        [exact HP | exact EU' | exact EG | exact ET | exact ER | reflexivity | reflexivity | reflexivity | simpl; exact EPD].
     + intros H; inversion H; subst; simpl. split; auto.
       eapply ShParallel with (z := z) (ar := ar) (ce := ce) (r' := RErr e) (st := st);
-        [exact HP | exact EG | exact ET | exact ER | reflexivity | reflexivity | reflexivity | simpl; auto].
+        [exact HP | exact EU' | exact EG | exact ET | exact ER | reflexivity | reflexivity | reflexivity | simpl; auto].
   - assert (HP : fst (probe valid c url presigned (s_probe sc)) = PInfo cl ar ce) by (rewrite EP; reflexivity).
     destruct (follow valid (c_max_redir c) 0%N url (s_get sc)) as [rs tr|e tr] eqn:EF.
     + destruct (negb (is_2xx (r_status rs))) eqn:E2.
       * intros H; inversion H; subst; simpl. split; auto.
         eapply ShSingle with (cl := cl) (ar := ar) (ce := ce) (fr := FOk rs tr);
-          [exact HP | symmetry; exact EF | reflexivity | reflexivity |].
+          [exact HP | exact EU | symmetry; exact EF | reflexivity | reflexivity |].
         exists 0. simpl. rewrite E2. auto.
       * destruct (read_single (c_max_fetch c) 0 [] (iter_chunked io_chunk (r_units rs)) (r_berr rs)) as [[d|e] n] eqn:ERS.
         -- destruct (post_decode c dec (if r_cenc rs =? 0 then ce else r_cenc rs) d) as [r2 dc] eqn:EPD.
            intros H; inversion H; subst; simpl. split; auto.
            eapply ShSingle with (cl := cl) (ar := ar) (ce := ce) (fr := FOk rs tr);
-             [exact HP | symmetry; exact EF | reflexivity | reflexivity |].
+             [exact HP | exact EU | symmetry; exact EF | reflexivity | reflexivity |].
            exists n. simpl. rewrite E2, ERS. auto.
         -- intros H; inversion H; subst; simpl. split; auto.
            eapply ShSingle with (cl := cl) (ar := ar) (ce := ce) (fr := FOk rs tr);
-             [exact HP | symmetry; exact EF | reflexivity | reflexivity |].
+             [exact HP | exact EU | symmetry; exact EF | reflexivity | reflexivity |].
            exists n. simpl. rewrite E2, ERS. auto.
     + intros H; inversion H; subst; simpl. split; auto.
       eapply ShSingle with (cl := cl) (ar := ar) (ce := ce) (fr := FErr e tr);
-        [exact HP | symmetry; exact EF | reflexivity | reflexivity |].
+        [exact HP | exact EU | symmetry; exact EF | reflexivity | reflexivity |].
       exists 0. simpl. auto.
 Qed.
